@@ -124,7 +124,15 @@ def run_entry(rec, name, funcs, call, native, expect_random=True, allow_shared=N
         paths = explore(lambda: (call(g), call(g)), [])
         rets = [r[1] for c, r, _ in paths if r[0] == 'ret']
         if len(rets) != 1:
-            return ('undecided', 'ghost provenance', 'paths: %s' % ([(r[0], str(r[1])[:100]) for c, r, _ in paths],))
+            # outside the symbolic model (e.g. a changed tree reads generator internals): the native replay alone may still find a witness
+            GEN_MODE[0] = True
+            try:
+                wit = native('seed.generator')
+            finally:
+                GEN_MODE[0] = False
+            if wit is None:
+                return ('undecided', 'ghost provenance', 'paths: %s (native replay finds nothing)' % ([(r[0], str(r[1])[:100]) for c, r, _ in paths],))
+            return ('refuted', 'native replay (symbolic execution undecided)', 'paths: %s | native: %s' % ([(r[0], str(r[1])[:60]) for c, r, _ in paths][:2], wit['what']), wit)
         a1 = {a for _, ats in atoms_of(rets[0][0]) for a in ats}
         a2 = {a for _, ats in atoms_of(rets[0][1]) for a in ats}
         bad = [a for a in a1 | a2 if a.args[0] != ghost.Stream(SEED) and not any(isinstance(x, ghost.UI) and x.args[0] == ghost.Stream(SEED) for x in a.args[0].args)]
@@ -229,6 +237,17 @@ def native_repeat(f, seeds=(3, 3, 4)):
     if GEN_MODE[0]:
         f0 = f
         f = lambda sd: f0(np.random.default_rng(sd))
+        # a generator passed as seed is advanced, not restarted: two successive calls with the same generator object draw different numbers
+        g = np.random.default_rng(seeds[0])
+        before = repr(g.bit_generator.state)
+        d1 = np.asarray(f0(g), dtype=float)
+        after = repr(g.bit_generator.state)
+        d2 = np.asarray(f0(g), dtype=float)
+        if d1.shape == d2.shape and np.array_equal(d1, d2) and len(np.unique(d1)) > 1:
+            return {'what': 'two successive calls with the same numpy Generator return identical draws (the generator is %s)' % ('not advanced' if before == after else 'restarted'),
+                    'expected': 'different draws', 'observed': d1.tolist()}
+        if before == after and len(np.unique(d1)) > 1:
+            return {'what': 'the numpy Generator passed as seed is left in its initial state although random numbers were drawn', 'expected': 'advanced generator', 'observed': d1.tolist()}
     np.random.seed(101)
     a = np.asarray(f(seeds[0]), dtype=float)
     np.random.seed(202)
@@ -444,6 +463,81 @@ def native_pam():
     return None
 
 
+def averaged_predictive(rec):
+    """bounded run-time contract (xarray / pandas containers, never counted as proved): posterior, prior and averaged predictive models --
+    reproducible from an integer seed under any global state, different seeds differ, the measurement noise of different samples and time
+    points of one call is not shared, and a Generator passed as seed is advanced"""
+    def build(kind):
+        import chi as real
+        import xarray as xr
+        import pints
+        Toy = native_toy(2, 1)
+        pm = real.PredictiveModel(Toy(), [real.GaussianErrorModel(), real.GaussianErrorModel()])
+        names = pm.get_parameter_names()
+
+        def post(shift):
+            # well separated posterior levels (100 apart) with unit noise: the level and hence the noise of every value can be recovered
+            vals = {names[0]: 100.0 * np.arange(1, 7).reshape(2, 3) + shift, names[1]: np.ones((2, 3)), names[2]: np.ones((2, 3))}
+            return real.PosteriorPredictiveModel(pm, xr.Dataset({n_: (('chain', 'draw'), v) for n_, v in vals.items()}, coords={'chain': [0, 1], 'draw': [0, 1, 2]}))
+        if kind == 'posterior':
+            return post(0.0), {}
+        if kind == 'pam':
+            return real.PAMPredictiveModel([post(0.0), post(1000.0)], weights=[1.0, 1.0]), {}
+        prior = pints.ComposedLogPrior(pints.UniformLogPrior(0.0, 1.0), pints.UniformLogPrior(0.99, 1.01), pints.UniformLogPrior(0.99, 1.01))
+        return real.PriorPredictiveModel(pm, prior), {}
+
+    def values(df, n, times):
+        out = np.zeros((n, 2, len(times)))
+        for i_ in range(n):
+            for o in range(2):
+                rows = df[(df['ID'] == i_ + 1) & (df['Observable'] == 'o%d' % o)]
+                out[i_, o] = np.asarray(rows['Value'], dtype=float)
+        return out
+
+    def one(case):
+        kind, mode = case
+        times = [1.0, 2.0, 3.0]
+        n = 12
+        model, kw = build(kind)
+        mk_seed = (lambda v: np.random.default_rng(v)) if mode == 'generator' else (lambda v: v)
+        np.random.seed(11)
+        a = values(model.sample(times, n_samples=n, seed=mk_seed(5), **kw), n, times)
+        np.random.seed(12)
+        np.random.random(7)
+        b = values(model.sample(times, n_samples=n, seed=mk_seed(5), **kw), n, times)
+        c = values(model.sample(times, n_samples=n, seed=mk_seed(6), **kw), n, times)
+        if kind != 'prior' or mode == 'generator':
+            # (pints priors draw from the global numpy generator, which sample() seeds from an integer seed; with a Generator there is no such contract)
+            pass
+        if not (kind == 'prior' and mode == 'generator') and not np.array_equal(a, b):
+            return '%s predictive model: two calls with seed 5 (%s) under different states of the global generator return different samples' % (kind, mode)
+        if np.array_equal(a, c):
+            return '%s predictive model: seeds 5 and 6 (%s) give identical samples' % (kind, mode)
+        # noise of sample i, output o, time t:  value - (level of the drawn parameters); toy output = (o + 1) * p + 5, noise sd about 1
+        lev = np.round((a - 5.0) / (np.arange(1, 3)[None, :, None] * 100.0)) * 100.0 if kind != 'prior' else None
+        noise = a - 5.0 - (np.arange(1, 3)[None, :, None] * lev) if lev is not None else a - a.mean(axis=2, keepdims=True)
+        flat = noise.reshape(n, -1)
+        for i_ in range(n):
+            for j_ in range(i_ + 1, n):
+                if np.allclose(flat[i_], flat[j_], atol=1e-9):
+                    return '%s predictive model, seed 5 (%s): samples %d and %d of one call carry identical measurement noise %s' % (kind, mode, i_ + 1, j_ + 1, np.round(flat[i_][:3], 4).tolist())
+        if kind != 'prior':
+            if float(np.std(flat)) < 0.5 or float(np.std(flat.mean(axis=1))) > 4 * float(np.std(flat)) / np.sqrt(flat.shape[1]) + 0.3:
+                return '%s predictive model, seed 5 (%s): the noise of the %d samples is not independent across time points / outputs (std %.3g, std of per-sample means %.3g)' % (
+                    kind, mode, n, float(np.std(flat)), float(np.std(flat.mean(axis=1))))
+        if mode == 'generator':
+            g = np.random.default_rng(5)
+            d1 = values(model.sample(times, n_samples=n, seed=g, **kw), n, times)
+            d2 = values(model.sample(times, n_samples=n, seed=g, **kw), n, times)
+            if np.array_equal(d1, d2):
+                return '%s predictive model: two successive calls with the same numpy Generator return identical samples (generator restarted or not advanced)' % kind
+        return None
+    rec.native_check('averaged-predictive/seed', ['chi._predictive_models.PosteriorPredictiveModel.sample', 'chi._predictive_models.PriorPredictiveModel.sample', 'chi._predictive_models.PAMPredictiveModel.sample'],
+                     [(k_, m_) for k_ in ('posterior', 'prior', 'pam') for m_ in ('integer', 'generator')], one,
+                     '3 averaged predictive models x {integer seed, numpy Generator}; 12 samples x 2 outputs x 3 times; posterior levels 100 apart with unit noise so that the noise of every value is recovered; '
+                     'distinct by (model, seed kind)', exhaustive=True)
+
+
 def initial_parameters(rec):
     import chi as real
     import pints
@@ -538,4 +632,4 @@ def native_filter_initial():
     return None
 
 
-TASKS = [('models', models), ('predictive', predictive), ('pam', pam), ('initial', initial_parameters)]
+TASKS = [('models', models), ('predictive', predictive), ('pam', pam), ('averaged-predictive', averaged_predictive), ('initial', initial_parameters)]
